@@ -282,10 +282,10 @@ class BaseProperty(base.BaseObject):
             self._parent.remove(self)
             self._parent = None
         elif self._validate_parent(new_parent):
-            if self._parent is not None:
-                self._parent.remove(self)
-            self._parent = new_parent
-            self._parent.append(self)
+            # append checks that the move is possible before anything is changed
+            # and removes the Property from its previous parent.
+            if new_parent is not self._parent:
+                new_parent.append(self)
         else:
             raise ValueError(
                 "odml.Property.parent: passed value is not of consistent type!"
